@@ -437,8 +437,21 @@ fn model_raw(op: &Op, r: &Regs, epsw: f64) -> MOut {
             }
         }
         Op::ToRowVector(a) => val_v(m[*a].d.clone(), exact(m[*a].d.len()), 0.0),
-        Op::GetRow(a, i) | Op::GetRowAsVec(a, i) | Op::CopyRowAsVec(a, i) => val_v(m[*a].row(*i), exact(m[*a].c), 0.0),
-        Op::GetColAsVec(a, j) | Op::CopyColAsVec(a, j) => val_v(m[*a].col(*j), exact(m[*a].r), 0.0),
+        Op::GetRow(a, i) | Op::GetRowAsVec(a, i) => val_v(m[*a].row(*i), exact(m[*a].c), 0.0),
+        Op::GetColAsVec(a, j) => val_v(m[*a].col(*j), exact(m[*a].r), 0.0),
+        // the receiver may be longer than the row / column: the prefix is overwritten, tail and length stay
+        Op::CopyRowAsVec(a, i) => {
+            let mut v = m[*a].row(*i);
+            v.extend(std::iter::repeat(RECEIVER_FILL).take(receiver_extra(*a, *i)));
+            let n = v.len();
+            val_v(v, exact(n), 0.0)
+        }
+        Op::CopyColAsVec(a, j) => {
+            let mut v = m[*a].col(*j);
+            v.extend(std::iter::repeat(RECEIVER_FILL).take(receiver_extra(*a, *j)));
+            let n = v.len();
+            val_v(v, exact(n), 0.0)
+        }
         Op::ColumnMean(a) => mean_model(&m[*a], 0),
         Op::Mean(a, axis) => mean_model(&m[*a], *axis),
         Op::Var(a, axis) | Op::Std(a, axis) => {
@@ -893,12 +906,12 @@ pub fn exec<T: RealNumber, M: Matrix<T>>(op: &Op, r: &BackendRegs<T, M>) -> Resu
             Op::GetRowAsVec(a, i) => BVal::PV(m[*a].get_row_as_vec(*i)),
             Op::GetColAsVec(a, j) => BVal::PV(m[*a].get_col_as_vec(*j)),
             Op::CopyRowAsVec(a, i) => {
-                let mut buf = vec![T::zero(); m[*a].shape().1];
+                let mut buf = vec![T::from_f64(RECEIVER_FILL).unwrap(); m[*a].shape().1 + receiver_extra(*a, *i)];
                 m[*a].copy_row_as_vec(*i, &mut buf);
                 BVal::PV(buf)
             }
             Op::CopyColAsVec(a, j) => {
-                let mut buf = vec![T::zero(); m[*a].shape().0];
+                let mut buf = vec![T::from_f64(RECEIVER_FILL).unwrap(); m[*a].shape().0 + receiver_extra(*a, *j)];
                 m[*a].copy_col_as_vec(*j, &mut buf);
                 BVal::PV(buf)
             }
@@ -1198,13 +1211,23 @@ pub fn draw_values(rng: &mut Rng, n: usize, kind: &str, f32w: bool) -> Vec<f64> 
     }
 }
 
+/// entries a `copy_*_as_vec` receiver is longer than the row / column it receives (0, 1 or 3), and what they hold
+pub const RECEIVER_FILL: f64 = 7.5;
+pub fn receiver_extra(reg: usize, i: usize) -> usize {
+    [0, 1, 3][(reg + i) % 3]
+}
+
 pub fn draw_regs(rng: &mut Rng, max_dim: usize, f32w: bool) -> (Regs, Vec<String>) {
     let nm = rng.us(2, 4);
     let nv = rng.us(2, 3);
     let mut kinds = Vec::new();
     let mut m = Vec::new();
     // correlated shapes so that compatible pairs are common
-    let d = [rng.us(1, max_dim), rng.us(1, max_dim), rng.us(1, max_dim)];
+    let mut d = [rng.us(1, max_dim), rng.us(1, max_dim), rng.us(1, max_dim)];
+    // the large programs also hold long thin operands (more than 1024 entries in a single row or column)
+    if max_dim > 40 && rng.bool(0.35) {
+        d[2] = rng.us(1025, 1500);
+    }
     for _ in 0..nm {
         let (r, c) = match rng.below(8) {
             0 => (1, *rng.pick(&d)),
@@ -1212,6 +1235,7 @@ pub fn draw_regs(rng: &mut Rng, max_dim: usize, f32w: bool) -> (Regs, Vec<String
             2 => (1, 1),
             _ => (*rng.pick(&d), *rng.pick(&d)),
         };
+        let (r, c) = if r * c > 6000 { (r, c.min(3)) } else { (r, c) };
         let kind = *rng.pick(&VALUE_KINDS);
         kinds.push(kind.to_string());
         m.push(Mat { r, c, d: draw_values(rng, r * c, kind, f32w) });
